@@ -60,11 +60,12 @@ Section AnyOperators.
   Proof. intros f l pos p' Hns. exact (concat_quiet binop LMAX Hns f l pos p'). Qed.
 
   (* for EVERY class of the model: a state that answers StopIteration without changing answers it for ever.
-     Full statement, open for the remaining finite classes (PDict, PArrayIndex over a literal list, PSequence with pattern
-     items, PRound with pattern arguments), validated by the correspondence and the stickiness oracle only:
-       forall f p p', finite_fragment p -> no_pattern_valued_terminating_parameter p ->
-                      step f p = (Stop, p') -> quiet f p'                                        *)
-  Theorem C09_sticky_remaining_classes_partial : forall f p,
+     The classes formerly listed here as open - PDict, PArrayIndex over a literal list, PSequence with pattern items, PRound
+     with pattern arguments - are proved in Props/C09More.v (C09_more_sticky: the full statement
+       forall f p p', gpat p -> step f p = (Stop, p') -> forall f2, quiet f2 p'   on the extended fragment gpat);
+     the one exception, PArrayIndex over a list of patterns with a pattern index, is the known finding
+     C09-parrayindex-revives (C09_more_arrayindex_revives) *)
+  Theorem C09_sticky_stable_state : forall f p,
     step binop LMAX f p = (Stop, p) -> dead binop LMAX f p.
   Proof. exact (stop_stable_dead binop LMAX). Qed.
 
